@@ -106,6 +106,22 @@ func mcMsg(ch, seq, size int) []byte {
 	return out
 }
 
+// writeTap records the first failed or short Write of the sender's connection: an MConnection that is not
+// started stops itself on a write error (stopForError), and stopping an unstarted MConnection panics on
+// its nil timers, which would hide the cause.
+type writeTap struct {
+	net.Conn
+	failed string
+}
+
+func (t *writeTap) Write(p []byte) (int, error) {
+	n, err := t.Conn.Write(p)
+	if (err != nil || n != len(p)) && t.failed == "" {
+		t.failed = fmt.Sprintf("Write(%d bytes) on the sender's connection = (%d, %v)", len(p), n, err)
+	}
+	return n, err
+}
+
 type delivery struct {
 	ch  byte
 	msg []byte
@@ -120,6 +136,7 @@ type mcInst struct {
 	c      *mcCfg
 	tx     *conn.MConnection
 	rx     *conn.MConnection
+	txTap  *writeTap
 	stage  *wire // what the sender's connection wrote and the harness has not delivered yet
 	feedTo *wire // the wire the receiver's connection reads from
 	ends   []*endpoint
@@ -176,6 +193,8 @@ func newMcInst(c *mcCfg, secure bool, ch *vk.Chooser) *mcInst {
 		}
 		txConn, rxConn = ra.sc, rb.sc
 	}
+	in.txTap = &writeTap{Conn: txConn}
+	txConn = in.txTap
 	a, b := in.ends[0], in.ends[1]
 	in.stage = newWire()
 	in.stage.coalesce = true
@@ -416,6 +435,9 @@ func runMconnSearch(r *vk.Run, c *mcCfg) vk.Result {
 			defer func() {
 				if e := recover(); e != nil {
 					out = vk.Outcome{Err: "mconn:panic", What: fmt.Sprint(e)}
+					if in.txTap != nil && in.txTap.failed != "" {
+						out = vk.Outcome{Err: "mconn:sender-connection-error", What: fmt.Sprintf("%s (then: %v)", in.txTap.failed, e)}
+					}
 				}
 			}()
 			for _, oi := range hist {
